@@ -253,6 +253,18 @@ class Recorder(object):
                 r = fn(case)
             except CheckerFault:
                 raise
+            except (ValueError, IndexError, TypeError, KeyError, ZeroDivisionError, FloatingPointError, NameError) as ex:
+                # every case is a valid use of the public interface that passes on the unchanged tree: an exception raised *inside the code under
+                # check* (innermost non-library frame in the checked tree's chi package) is a failed run-time contract, not a fault of the checker;
+                # an exception raised in the contract code itself stays a checker fault
+                import traceback as _tb
+                frames = [f_ for f_ in _tb.extract_tb(ex.__traceback__) if 'site-packages' not in f_.filename and '/lib/python' not in f_.filename]
+                inner = frames[-1].filename if frames else ''
+                root = os.path.abspath(os.environ.get('CHI_REPO', '/repo'))
+                if not (os.path.abspath(inner).startswith(os.path.join(root, 'chi') + os.sep)):
+                    raise
+                r = 'the call raises %s: %s (in %s:%d %s) for a valid input that the unchanged code accepts' % (
+                    type(ex).__name__, str(ex)[:200], os.path.relpath(inner, root), frames[-1].lineno, frames[-1].name)
             key = repr(jsonable(case))[:300]
             distinct.add(key)
             if len(samples) < 3:
